@@ -1,5 +1,6 @@
 (* Windowing utilities (C18): limit_df, limit_signal (utils/timeseries.py), split/drop_samples_df,
-   flatten_dfs (utils/dataframes.py) — as repaired: optional limits, centring-aware shift. *)
+   flatten_dfs (utils/dataframes.py) — as repaired: optional limits, centring-aware shift by the
+   nearest sample index. *)
 From Coq Require Import List Bool Arith ZArith Floats.PrimFloat Floats.SpecFloat Floats.FloatOps.
 Import ListNotations.
 From ByC Require Import Base.Result Base.ListAux Base.FloatBase Harness.Compare Model.Cycles Model.Epoch.
@@ -12,6 +13,16 @@ Definition F2Z_trunc (x : float) : Z :=
     if s then (- mag)%Z else mag
   | _ => 0%Z
   end.
+
+(* int(np.round(x)): nearest integer, ties to even *)
+Definition F2Z_round (x : float) : Z :=
+  let t := F2Z_trunc x in
+  let fr := (x - Z2F t)%float in
+  if (0x1p-1 <? fr)%float then (t + 1)%Z
+  else if (fr <? -0x1p-1)%float then (t - 1)%Z
+  else if (fr =? 0x1p-1)%float then (if Z.even t then t else t + 1)%Z
+  else if (fr =? -0x1p-1)%float then (if Z.even t then t else t - 1)%Z
+  else t.
 
 (* neurodsp check_param_range with optional bounds (None skips the check) *)
 Definition in_range (x lo hi : float) : bool := negb ((x <? lo)%float || (hi <? x)%float).
@@ -42,7 +53,8 @@ Definition limit_df (rows : list wrow) (fs : float) (start stop : option float) 
   else
     let a := match start with Some a => a | None => 0%float end in
     let kept := filter (keep_row fs start stop) rows in
-    Ok (if reset then map (fun r => (shift_srow (F2Z_trunc (fs * a)%float) (fst r), snd r)) kept else kept).
+    (* the offset is the sample index NEAREST to fs*start (repaired: it used to be truncated) *)
+    Ok (if reset then map (fun r => (shift_srow (F2Z_round (fs * a)%float) (fst r), snd r)) kept else kept).
 End Rows.
 
 (* limit_signal: samples with start <= t < stop, either limit optional *)
